@@ -324,4 +324,114 @@ theorem goParse_format (t : Time) (hw : wfTime t = true) : goParseTime (goFormat
   congr 1
   omega
 
+
+theorem fracText_trunc (nsec : Nat) (hn : nsec < 1000000000) : fracText (nsec / 1000000 * 1000000) = fracText nsec := by
+  obtain ⟨_, _, hnil, _⟩ := frac_table (nsec / 1000000) (by omega)
+  unfold fracText
+  have e : nsec / 1000000 * 1000000 / 1000000 = nsec / 1000000 := by omega
+  by_cases hms : nsec / 1000000 = 0
+  · have hd := hnil.mpr hms
+    have h0 : nsec / 1000000 * 1000000 = 0 := by omega
+    simp only [h0, ↓reduceIte]
+    by_cases hn0 : nsec = 0
+    · simp [hn0]
+    · simp only [hn0, ↓reduceIte, hd]
+  · have h1 : nsec / 1000000 * 1000000 ≠ 0 := by omega
+    have h2 : nsec ≠ 0 := by omega
+    simp only [h1, h2, ↓reduceIte, e]
+
+theorem goFormat_trunc (t : Time) (hw : wfTime t = true) : goFormatTime (truncMs t) = goFormatTime t := by
+  simp only [wfTime, Bool.and_eq_true, decide_eq_true_eq] at hw
+  rw [goFormatTime_eq, goFormatTime_eq]
+  simp only [truncMs, fracText_trunc t.nsec hw.2]
+
+theorem padNat_timeChars (w n : Nat) : (padNat w n).all timeChar = true :=
+  List.all_eq_true.mpr fun c hc => by
+    have := List.all_eq_true.mp (padNat_all_digits w n) c hc
+    simp [timeChar, this]
+
+theorem fracText_timeChars (nsec : Nat) (hn : nsec < 1000000000) : (fracText nsec).all timeChar = true := by
+  obtain ⟨hdig, _, _, _⟩ := frac_table (nsec / 1000000) (by omega)
+  unfold fracText
+  split
+  · rfl
+  · simp only
+    split
+    · rfl
+    · simp only [List.all_cons, Bool.and_eq_true]
+      refine ⟨by decide, List.all_eq_true.mpr fun c hc => ?_⟩
+      have := List.all_eq_true.mp hdig c hc
+      simp [timeChar, this]
+
+theorem zoneText_timeChars (off : Int) (h60 : off % 60 = 0) (hlo : -86400 < off) (hhi : off < 86400) :
+    (zoneText off).all timeChar = true := by
+  unfold zoneText
+  by_cases h0 : off = 0
+  · simp [h0]; decide
+  · simp only [h0, ↓reduceIte]
+    obtain ⟨k, hk⟩ : ∃ k, off = 60 * k := ⟨off / 60, by omega⟩
+    have htd : off.tdiv 60 = k := by
+      rw [hk]
+      exact Int.mul_tdiv_cancel_left k (by decide)
+    rw [htd]
+    by_cases hneg : k < 0
+    · simp only [hneg, ↓reduceIte]
+      rw [appendInt_nonneg (by omega), appendInt_nonneg (by omega)]
+      simp only [List.all_cons, List.all_append, padNat_timeChars, Bool.and_true, Bool.and_eq_true]
+      exact ⟨by decide, by decide⟩
+    · simp only [hneg, ↓reduceIte]
+      rw [appendInt_nonneg (by omega), appendInt_nonneg (by omega)]
+      simp only [List.all_cons, List.all_append, padNat_timeChars, Bool.and_true, Bool.and_eq_true]
+      exact ⟨by decide, by decide⟩
+
+theorem goFormat_chars (t : Time) (hw : wfTime t = true) : (goFormatTime t).all timeChar = true := by
+  simp only [wfTime, Bool.and_eq_true, decide_eq_true_eq] at hw
+  obtain ⟨⟨⟨⟨⟨h60, hlo⟩, hhi⟩, hy0⟩, hy1⟩, hns⟩ := hw
+  have hdb : -719528 ≤ (t.sec + t.off) / 86400 ∧ (t.sec + t.off) / 86400 ≤ 2932896 := by omega
+  obtain ⟨cy0, cy1, cm0, cm1, cd0, cd1⟩ := civil_valid _ hdb.1 hdb.2
+  rw [goFormatTime_eq]
+  rw [appendInt_nonneg cy0, appendInt_nonneg (by omega), appendInt_nonneg (by omega), appendInt_nonneg (by omega),
+    appendInt_nonneg (by omega), appendInt_nonneg (by omega)]
+  simp only [List.all_append, List.all_cons, padNat_timeChars, fracText_timeChars _ hns,
+    zoneText_timeChars _ h60 hlo hhi, Bool.and_true, Bool.true_and]
+  decide
+
+/-- a codec with the Go time layout -/
+def Codec.withGoTime (D : Codec) : Codec := { D with fmtTime := goFormatTime, parseTime := goParseTime }
+
+theorem Codec.go_withGoTime : Codec.go.withGoTime = Codec.go := rfl
+
+/-- the duration half of `Codec.Valid` -/
+structure Codec.DurValid (C : Codec) : Prop where
+  fmt_dur : ∀ d : Int, d.natAbs ≤ durMax.toNat →
+    ∃ q : Nat, C.fmtDur d = decText (decide (d < 0)) q ∧ q * 10000 ≤ d.natAbs + 5000 ∧ d.natAbs ≤ q * 10000 + 5000
+  parse_dur : ∀ (neg : Bool) (q : Nat), q ≤ 100000000000 →
+    ∃ n : Nat, C.parseDur (decText neg q) = some (if neg then -(n : Int) else n) ∧ n ≤ q * 10000 ∧ q * 10000 ≤ n + 1
+
+/-- with the Go time layout only the float envelope remains to be assumed -/
+theorem Codec.withGoTime_valid {D : Codec} (h : D.DurValid) : D.withGoTime.Valid where
+  fmt_dur := h.fmt_dur
+  parse_dur := h.parse_dur
+  time_rt := goParse_format
+  time_trunc := goFormat_trunc
+  time_chars := goFormat_chars
+
+theorem Codec.exact_durValid : Codec.exact.DurValid := ⟨Codec.exact_valid.fmt_dur, Codec.exact_valid.parse_dur⟩
+
+/-- exact decimal durations + the Go time layout -/
+def Codec.exactGo : Codec := Codec.exact.withGoTime
+
+theorem Codec.exactGo_valid : Codec.exactGo.Valid := Codec.withGoTime_valid Codec.exact_durValid
+
+
+/-- **The one assumption about the real library behaviour that is not proved**: the exact IEEE-754
+model of `FormatFloat(d.Seconds(),'f',5,64)` and `time.Duration(ParseFloat(s)*1e9)` stays inside
+the error envelope (nearest 10 µs with ties either way for |d| ≤ 10^15 ns; parse exact or 1 ns toward
+zero).  Validated by tie T2 (model = real code on every generated duration) and by the direct
+oracle; `decide`d on samples in `Hls/Props/C14.lean`. -/
+def IeeeEnvelope : Prop := Codec.go.DurValid
+
+/-- the driver's codec is valid as soon as the float envelope holds (its time half is proved) -/
+theorem Codec.go_valid (h : IeeeEnvelope) : Codec.go.Valid := Codec.withGoTime_valid (D := Codec.go) h
+
 end Hls.Playlist.MP
